@@ -12,6 +12,7 @@
   * `C11_doxAfter_partition`: the trailing scan removes only comment tokens (and the NEWLINE
     that ends the line); every other token stays, in order;
   * `C11_extract_none_without_doc`: plain comments contribute no text;
+  * `C11_extract_lines_append`: every doc comment of a block contributes its lines, in order;
   * `C11_keep_doxygen`: in the main loop a pending doc text survives only attribute-like items.
   Attachment per declaration kind: correspondence `parse[doxygen]` + oracle (named; not proof).
 -/
@@ -121,27 +122,21 @@ def isDocText (v : Str) : Bool :=
 
 theorem C11_extract_none_without_doc (mcRe : Re) (comments : List Tok)
     (h : ∀ c ∈ comments, isDocText (strToStr c.value) = false) : extractComments mcRe comments = none := by
-  have key : ∀ (acc : List Str), comments.foldl (fun (acc : List Str) (c : Tok) =>
-      let text := strToStr c.value
-      if c.type = "COMMENT_SINGLELINE" then
-        if startsWith text [47, 47, 47] || startsWith text [47, 47, 33] then acc ++ [rstripNl text] else acc
-      else
-        if startsWith text [47, 42, 42] || startsWith text [47, 42, 33] then
-          let text := replaceDblNl text
-          let text := subMulticomment mcRe (text.length + 1) text
-          splitLines text
-        else acc) acc = acc := by
-    induction comments with
-    | nil => intro acc; rfl
-    | cons c cs ih =>
-      intro acc
-      have hc := h c (by simp)
-      simp only [isDocText, Bool.or_eq_false_iff] at hc
-      obtain ⟨⟨⟨h1, h2⟩, h3⟩, h4⟩ := hc
-      simp only [List.foldl_cons, h1, h2, h3, h4, Bool.or_self, Bool.false_eq_true, ↓reduceIte, ite_self]
-      exact ih (fun x hx => h x (by simp [hx])) acc
+  have key : comments.flatMap (docLinesOf mcRe) = [] := by
+    rw [List.flatMap_eq_nil_iff]
+    intro c hc
+    have hd := h c hc
+    simp only [isDocText, Bool.or_eq_false_iff] at hd
+    obtain ⟨⟨⟨h1, h2⟩, h3⟩, h4⟩ := hd
+    simp [docLinesOf, h1, h2, h3, h4]
   simp only [extractComments, key, joinNl]
   rfl
+
+/-- every comment of a block contributes its lines, in order: the lines of a concatenation
+    are the concatenation of the lines (no comment replaces what was collected before it) -/
+theorem C11_extract_lines_append (mcRe : Re) (a b : List Tok) :
+    (a ++ b).flatMap (docLinesOf mcRe) = a.flatMap (docLinesOf mcRe) ++ b.flatMap (docLinesOf mcRe) :=
+  List.flatMap_append
 
 theorem C11_keep_doxygen : Gen.keepDoxygen = ["DBL_LBRACKET", "__attribute__", "__declspec", "alignas"] := keep_doxygen_eq
 
